@@ -33,7 +33,7 @@ def hashable(v):
     return z3.Not(z3.Or(V.is_list(v), V.is_dict(v), z3.And(V.is_set(v), z3.Not(Val.frozen(v)))))
 
 
-def to_key(v):
+def _to_key_def(v):
     """dict key for a hashable Val (1 == True == 1.0 fold together as in Python)."""
     isint_float = z3.And(V.is_float(v), z3.IsInt(Val.r(v)))
     return z3.If(V.is_str(v), V.KS(Val.s(v)),
@@ -57,7 +57,7 @@ key_val = z3.Function("key_val", V.Key, Val)
 _eqc = z3.Function("container_eq", Val, Val, z3.BoolSort())   # Python == on two containers of the same kind
 
 
-def py_eq(a, b):
+def _py_eq_def(a, b):
     """formula for Python's a == b (never raises for the modelled types; instances compare by
     identity: no class in the repository defines __eq__)."""
     both_num = z3.And(V.is_numeric(a), V.is_numeric(b))
@@ -68,6 +68,10 @@ def py_eq(a, b):
            z3.If(both_prim, a == b,
            z3.If(same_kind_cont, z3.Or(a == b, _eqc(a, b)),
                  a == b)))
+
+
+py_eq = V._define("py_eq", [Val, Val, z3.BoolSort()], _py_eq_def)
+to_key = V._define("to_key", [Val, V.Key], _to_key_def)
 
 
 def container_eq_facts(a, b):
